@@ -484,6 +484,87 @@ fn history_instances(rep: &Report, seed: u64, opts: u8, depth: usize, instances:
     rep.extra(if opts == 0 { "histories_on_fresh_instances_standard_mode" } else { "histories_on_fresh_instances" }, json!({"depth": depth, "histories": words.len(), "instances_per_history": instances, "distinct_call_outcomes": outcomes.into_inner().unwrap().len(), "histories_with_an_accepted_call_after_a_rejected_one": accepted_after_reject.into_inner()}));
 }
 
+/// Two-picture streams (an I picture and a predicted picture that codes only part of its
+/// macroblocks) over sizes that share a macroblock count or a row length: every ordered pair of
+/// streams is decoded by two decoders on one *new* thread - one after the other, and picture by
+/// picture in turn - and the second stream's observations must equal those of the stream decoded
+/// alone on another new thread.
+fn stream_pair_purity(rep: &Report, seed: u64) {
+    let mut streams: Vec<(String, Vec<Arc<Vec<u8>>>)> = vec![];
+    for &(w, h) in &[(32u16, 16u16), (16, 32), (16, 16), (48, 16), (32, 32), (24, 19)] {
+        let (mbw, mbh) = mb_grid(w, h);
+        let n = mbw * mbh;
+        for kind in 0..3usize {
+            let specs: Vec<Spec> = (0..n)
+                .map(|i| match kind {
+                    0 => {
+                        if i == 0 {
+                            Spec::Inter((2, -1), false)
+                        } else {
+                            Spec::NotCoded
+                        }
+                    }
+                    1 => Spec::NotCoded,
+                    _ => {
+                        if i + 1 == n {
+                            Spec::Inter4V([(1, 1), (-2, 3), (4, -4), (0, 7)], false)
+                        } else if i % 2 == 0 {
+                            Spec::NotCoded
+                        } else {
+                            Spec::Intra
+                        }
+                    }
+                })
+                .collect();
+            let hdr = shdr(w, h, 1, 1, 6, 0);
+            let mut p = Pic { hdr, mbs: mbs_for(&specs, mbw, false, true) };
+            fix_last_flags(&mut p);
+            let i_pic = noise_intra(shdr(w, h, 0, 0, 6, 0), seed ^ (w as u64 * 131 + h as u64));
+            streams.push((format!("{w}x{h} I, P ({})", ["first macroblock coded, rest skipped", "all skipped", "every second macroblock intra, last with four vectors"][kind]), vec![Arc::new(encode_bytes(&i_pic)), Arc::new(encode_bytes(&p))]));
+        }
+    }
+    let run = |calls: Vec<(usize, Arc<Vec<u8>>)>, n_dec: usize| -> Vec<Vec<Obs>> {
+        std::thread::spawn(move || {
+            crate::evidence::install_panic_hook();
+            let mut sts: Vec<H263State> = (0..n_dec).map(|_| H263State::new(options_from_bits(1))).collect();
+            let mut obs: Vec<Vec<Obs>> = vec![vec![]; n_dec];
+            for (d, bytes) in calls {
+                let o = decode_bytes(&mut sts[d], &bytes);
+                obs[d].push(observe(&sts[d], &o));
+            }
+            obs
+        })
+        .join()
+        .unwrap_or_default()
+    };
+    let alone: Vec<Vec<Obs>> = streams.iter().map(|(_, c)| run(c.iter().map(|b| (0usize, b.clone())).collect(), 1).pop().unwrap_or_default()).collect();
+    let n = streams.len();
+    let pairs: Vec<(usize, usize)> = (0..n).flat_map(|a| (0..n).map(move |b| (a, b))).collect();
+    pairs.par_iter().for_each(|&(a, b)| {
+        for order in 0..2usize {
+            let (ca, cb) = (&streams[a].1, &streams[b].1);
+            let calls: Vec<(usize, Arc<Vec<u8>>)> = if order == 0 {
+                vec![(0, ca[0].clone()), (0, ca[1].clone()), (1, cb[0].clone()), (1, cb[1].clone())]
+            } else {
+                vec![(0, ca[0].clone()), (1, cb[0].clone()), (0, ca[1].clone()), (1, cb[1].clone())]
+            };
+            let obs = run(calls, 2);
+            if obs.len() != 2 || obs[1] != alone[b] || obs[0] != alone[a] {
+                let which = if obs.len() == 2 && obs[0] != alone[a] { a } else { b };
+                rep.violation_lazy("C17/stream-depends-on-another-stream-on-the-thread", || {
+                    (
+                        format!("streams '{}' and '{}' decoded by two decoders on one new thread ({}): stream '{}' gives {:?}, alone on a new thread {:?}", streams[a].0, streams[b].0, if order == 0 { "one after the other" } else { "picture by picture in turn" }, streams[which].0, obs.get(if which == a { 0 } else { 1 }), alone[which]),
+                        json!({"kind": "interleaving", "placement": "same-thread", "order": if order == 0 { vec![0, 0, 1, 1] } else { vec![0, 1, 0, 1] }, "instances": [{"name": streams[a].0, "options": 1, "calls": streams[a].1.iter().map(|c| hex(c)).collect::<Vec<_>>()}, {"name": streams[b].0, "options": 1, "calls": streams[b].1.iter().map(|c| hex(c)).collect::<Vec<_>>()}]}),
+                    )
+                });
+            }
+        }
+    });
+    rep.add_states(2 * pairs.len() as u64);
+    rep.add_transitions(8 * pairs.len() as u64);
+    rep.extra("stream_pairs_on_one_new_thread", json!({"streams": n, "ordered_pairs_x_orders": 2 * pairs.len(), "accepted_calls_alone": alone.iter().flatten().filter(|o| o.0 == "Ok").count()}));
+}
+
 /// run a script alone, sequentially
 pub fn solo(s: &Script) -> Vec<Obs> {
     let mut st = H263State::new(options_from_bits(s.opts));
@@ -896,6 +977,7 @@ pub fn run(tier: Tier) -> Report {
             }
         }
     }
+    stream_pair_purity(&rep, seed);
     // every history over a ten-letter alphabet, on several fresh instances each
     history_instances(&rep, seed, 1, if tier.thorough() { 5 } else { 4 }, if tier.thorough() { 12 } else { 8 });
     history_instances(&rep, seed, 0, if tier.thorough() { 5 } else { 4 }, if tier.thorough() { 12 } else { 8 });
@@ -923,7 +1005,7 @@ pub fn run(tier: Tier) -> Report {
     }
     rep.extra("synchronisation_inventory", inv);
     rep.set_rule(
-        "instances with their own histories (8 scripts of 3 calls: I/P/D, rejected mid-picture inputs, prediction without reference, both modes, all option sets): every interleaving (multiset permutation) of the calls of every pair and of triples of scripts, executed under an explicit scheduler on one thread and with one OS thread per instance (token passing); every instance's observations (Ok/Err, hash of picture+header after each call) must equal its solo run; every ordered pair of ~90 one-picture letters decoded back to back on one thread by two fresh decoders (single-call purity); first-initialisation order in fresh child processes (every ordered pair of scripts alternating, and every script alone as the first work of a process, plus eight first-use scripts: plain-PTYPE pictures with each PTYPE option bit set, after a PLUSPTYPE picture and after nothing); 32 fresh instances per script and 8/12 fresh instances for every history of up to 4/5 calls over a ten-letter Sorenson and an eight-letter standard-mode alphabet (accepted, rejected and cut I/P/D pictures, colliding temporal references, a second size) - the histories are enumerated, the hash seeds of the instances are sampled; free-running threads (sampling); non-trivial = every interleaving (two or more instances)",
+        "instances with their own histories (8 scripts of 3 calls: I/P/D, rejected mid-picture inputs, prediction without reference, both modes, all option sets): every interleaving (multiset permutation) of the calls of every pair and of triples of scripts, executed under an explicit scheduler on one thread and with one OS thread per instance (token passing); every instance's observations (Ok/Err, hash of picture+header after each call) must equal its solo run; every ordered pair of ~100 one-picture letters decoded back to back on one thread by two fresh decoders (single-call purity); every ordered pair of 18 two-picture streams (I + partly coded P over six sizes sharing macroblock counts or row lengths) on one new thread, one after the other and in turn, against the stream alone on a new thread; first-initialisation order in fresh child processes (every ordered pair of scripts alternating, and every script alone as the first work of a process, plus eight first-use scripts: plain-PTYPE pictures with each PTYPE option bit set, after a PLUSPTYPE picture and after nothing); 32 fresh instances per script and 8/12 fresh instances for every history of up to 4/5 calls over a ten-letter Sorenson and an eight-letter standard-mode alphabet (accepted, rejected and cut I/P/D pictures, colliding temporal references, a second size) - the histories are enumerated, the hash seeds of the instances are sampled; free-running threads (sampling); non-trivial = every interleaving (two or more instances)",
     );
     rep.assume("the crates contain no lock, atomic, channel, unsafe or static mut (inventory in the evidence), so a call on one instance has no scheduling point visible to a controlled scheduler: interleavings are explored at call granularity");
     rep
